@@ -75,3 +75,25 @@ Print Assumptions c13_flat_text.
 Theorem c13_flat_text_refuses : forall f term a c b, 128 <= c -> text_encode f term (a ++ c :: b) = None.
 Proof. exact text_refuses_non_ascii. Qed.
 Print Assumptions c13_flat_text_refuses.
+
+(* ---------- random-access text records (Pack/Records.v, tied to Records::update_fimg / FileImage::pack_rec by the recpack stream) ---------- *)
+From A2 Require Import Pack.Records Pack.RecordsProofs.
+
+(* for every chunk size, every record length, every set of records with distinct numbers whose bytes fit the record length - neighbours
+   that share a chunk, records longer than a chunk, records far apart - what the packed image holds at byte i of record r is byte i
+   of that record's text, and zero behind it: no record is disturbed by another, wherever the chunk boundaries fall *)
+Theorem c13_records_read_back : forall L rl force0 rs, 0 < L -> NoDup (map fst rs) -> (forall r d, In (r, d) rs -> lenN d <= rl) ->
+  forall r d i, In (r, d) rs -> i < rl -> stored_at L (rec_pack L rl force0 rs) (r * rl + i) = dnth d (N.to_nat i).
+Proof. exact rec_pack_reads. Qed.
+Print Assumptions c13_records_read_back.
+
+(* and the image holds nothing else: at every offset of the file, the stored byte is the written byte (zero where none was written) *)
+Theorem c13_records_nothing_else : forall L rl force0 rs, 0 < L ->
+  forall off, stored_at L (rec_pack L rl force0 rs) off = byte_at (writes rl rs) off.
+Proof. exact stored_is_written. Qed.
+Print Assumptions c13_records_nothing_else.
+
+Example c13_records_nonvacuous :
+  let img := rec_pack 256 300 true [(0, [72; 73; 13]); (1, [65; 13]); (3, [90])] in
+  map fst (r_chunks img) = [0; 1; 3] /\ r_eof img = 901 /\ stored_at 256 img 300 = 65 /\ stored_at 256 img 302 = 0 /\ stored_at 256 img 900 = 90.
+Proof. exact rec_pack_example. Qed.
